@@ -94,6 +94,25 @@ def run(F, R):
                 ok = const_eval(b, vals.get("line")) == 1 and const_eval(b, vals.get("column")) == 1 and const_eval(b, vals.get("pos")) == 0
     R.check(ok, "R14.2", "PositionCalculator::new:starts-1-1", news[0].where() if news else "-", "line 1, column 1, pos 0", "initial position is not 1:1")
 
+    allw = [(bb, r, f) for f in ("line", "column") for bb, s_ in step.all_stmts() if s_[0][-1] == "." + f for r in [s_[1]]]
+    badw = [(bb, f) for bb, r, f in allw if not (is_incr(step, r) or (r[0] == "use" and const_eval(step, r[1]) == 1))]
+    R.check(bool(allw) and not badw, "R14.2", "step:only-unit-steps", step.where(), "every write to line/column is `= 1` or `+= 1` (%d writes)" % len(allw),
+            "a write to %s is neither `= 1` nor `+= 1`: positions advance by something other than one Unicode scalar value (e.g. a byte length)" % sorted({f for _, f in badw}))
+
+    R.rule("R14.5", "positions are computed on the text the caller supplied: parse_query / parse_schema hand the same, untransformed input to PositionCalculator::new "
+                    "and to the pest parser (no trimming / BOM stripping in between, which would shift every column)")
+    for ent in F.find(r"^async_graphql_parser::parse::(executable::parse_query|service::parse_schema)$", kind="fn"):
+        pcs = [c for c in ent.calls_to(POS + r"::\{impl#\d+\}::new$") if "PositionCalculator" in (c.self_ty or c.pretty or "")]
+        prs = ent.calls_to(r"generated::\{impl#\d+\}::parse$|pest::parser::Parser::parse$")
+        okk = bool(pcs) and bool(prs)
+        for c in pcs + prs:
+            arg = c.args[0] if c in pcs else c.args[-1]
+            o, passed = trace(ent, arg, through_calls=True)
+            others = [p.callee for p in passed if p.callee and not re.search(r"::as_ref$|::deref$|::as_str$|::borrow$", p.callee)]
+            okk = okk and not others and any(k == "param" for k, x in o)
+        R.check(okk, "R14.5", "entry:%s:positions-on-original-input" % ent.name, ent.where(), "input passed through as_ref only",
+                "the text given to the position calculator / parser is derived from the input through other calls: reported columns refer to a transformed text")
+
     R.rule("R14.3", "provenance: every Positioned::new(node, pos) in the parser's builders takes pos from PositionCalculator::step of a pair "
                     "(directly or through a callee that does), never a constant")
     n = 0
